@@ -54,5 +54,19 @@ Section Controls.
     | n :: r =>
         (n, match find (fun p => eqb (fst p) n) given with Some p => snd p | None => n0 end) :: replace_state eqb r given
     end.
+
+  (* scene.py 2270-2290 (control_derivatives): the finite-difference step added to the recorded input of one control.  A number moves by the
+     step; a span-wise table moves as a whole, its span column untouched (0.0 is added to it) *)
+  Definition shift_input (c : cinput) (d : T) : cinput :=
+    match c with
+    | CConst v => CConst (v + d)
+    | CTable tbl => CTable (map (fun p => (fst p + n0, snd p + d)) tbl)
+    end.
+  (* wing_segment.py 1375: a table is accepted when its first and last span fractions are the root and tip of the control surface *)
+  Definition table_ends_ok (root tip : T) (c : cinput) : bool :=
+    match c with
+    | CConst _ => true
+    | CTable tbl => match tbl with [] => false | p :: _ => (fst p =? root) && (fst (last tbl p) =? tip) end
+    end.
 End Controls.
 Arguments cinput T : clear implicits.
